@@ -36,6 +36,8 @@ func init() {
 		commonAssumptions, func(w *World, r *Report) {
 			la := NewLockAnalysis(w)
 			r.Rule("R11.1", 2, "disposal loops traverse the list in reverse")
+			r.Rule("R11.11", 8, "no captive path: the lifetime-validation rules of C07 (a singleton that captured a scoped instance of the root scope outlives it: the root scope is closed before the singletons)")
+			r.Try(func() { reexportC07(w, r, "R11.11", "R07.1", "R07.2", "R07.3", "R07.4", "R07.5", "R07.6", "R07.8") })
 			r.Rule("R11.10", 10, "creation order is dependency order only for the dependencies the analysis sees: the field walkers of the analyzer and of the invoker skip the same fields")
 			r.Try(func() { ruleFieldFilters(w, r, "R11.10") })
 			r.Rule("R11.2", 3, "owner disposal lists are appended to at the end or reset, never reordered")
@@ -120,6 +122,8 @@ func init() {
 		"Structural necessary conditions of 'closing a scope releases everything': (R14.1) past the gate every path of scope.Close calls the stored cancel func; (R14.2) and deletes the scope from its parent's children and from the provider's scopes (only a nil test of the owner pointer may guard either); (R14.3) every insertion site into those tables is paired with that deletion; (R14.4) cache, disposal list and child table are reset; (R14.5) on every path from WithCancel to a return, the scope owning cancel is returned or has been closed, including failing initializers; (R14.6) the watcher's only blocking operation is the receive on the context that R14.1 cancels. NOT decided: garbage-collector reachability, bounded memory in general.",
 		commonAssumptions, func(w *World, r *Report) {
 			la := NewLockAnalysis(w)
+			r.Rule("R14.8", 1, "a scope creation that fails leaves nothing behind also when an initializer panics: the invoker's recover handler turns every recovered value into an error (the cleanup of the half-built scope is on the error path)")
+			r.Try(func() { ruleRecoverNeverRepanics(w, r, "R14.8") })
 			r.Rule("R14.1", 1, "cancel on every path past the gate")
 			r.Rule("R14.2", 2, "self-removal from both tables on every path past the gate")
 			r.Rule("R14.3", 2, "insertions paired with deletions")
